@@ -7,7 +7,7 @@
  "annotate": ["util/json.c"],
  "defines": ["VERIF_HALLOC"],
  "thorough_defines": ["JS_MAX=48", "JS_KMAX=12"],
- "models": ["models/io_libc_string.c"],
+ "models": ["models/libc_string.c"],
  "instrument_flags": ["--nondet-static-exclude", "numchars"],
  "native": true,
  "timeout": 300,
